@@ -16,13 +16,14 @@ from . import decl, c15, c11
 
 VALID = ['B1', 'B2', 'N1', 'S', 'V', 'P', 'NB', 'x1', 'y1', 'x1/y1', 'x1²',
          'n1', 'EUR', 'XAB', '?query']
-INVALID = c15.INVALID + ['!XXQ', '!XAA', '!XAC', '!XAD', '!EURdup']
+INVALID = c15.INVALID + ['!otherdim2'] + ['!XXQ', '!XAA', '!XAC', '!XAD', '!EURdup']
 ROOTS = [[], ['B1', 'B2'], ['B1', 'B2', 'V', 'S', 'x1', 'y1'],
          ['B1', 'N1', 'NB', 'n1', 'EUR'], ['B1', 'B2', 'P', 'EUR', 'XAB']]
 
 
 def explore(names, depth, total, root):
     groups = defaultdict(dict)
+    sgroups = defaultdict(dict)
 
     def on_rec(rec):
         if 'fp' not in rec:
@@ -51,6 +52,7 @@ def explore(names, depth, total, root):
         key = tuple(rec['valid_hist'])
         g = groups[key]
         g.setdefault(rec['fp'], rec['h'])
+        sgroups[tuple(rec['strict_hist'])].setdefault(rec['sfp'], rec['h'])
     n, nfp = c15.explore(names, depth, total, prop='C16', max_invalid=2,
                          on_rec=on_rec, root=root)
     for key, g in groups.items():
@@ -63,6 +65,19 @@ def explore(names, depth, total, root):
                             "different observable directories",
                             {'root': root, 'history': hs[1],
                              'twin': hs[0]})
+    for key, g in sgroups.items():
+        total.evaluations += 1
+        if len(g) > 1 and len(groups[tuple(n for n in key if not
+                                           n.startswith('?'))]) == 1:
+            hs = list(g.values())
+            total.violation('C16:history-with-rejected-steps-differs:'
+                            'returned-unit',
+                            f"root {root}: histories {hs[0]} and {hs[1]} "
+                            f"have the same accepted steps and queries "
+                            f"{list(key)}, yet some unit operation returns "
+                            "its (equal) value in another unit",
+                            {'root': root, 'history': hs[1],
+                             'twin': hs[0], 'strict': True})
     return n, nfp, len(groups)
 
 
@@ -96,12 +111,14 @@ def replay(case):
                         reason = decl.EVENTS[name][2].split(':')[-1]
                         res.append((f'C16:rejected-step-left-trace:{reason}',
                                     f"{hist}"))
-                return res, rec['fp'] if rec else None
+                return res, (rec['sfp'] if case.get('strict') else rec['fp']) \
+                if rec else None
             r, fp = fork_call(one)
             out += r
             fps.append(fp)
         if len(fps) == 2 and fps[0] != fps[1]:
-            out.append(('C16:history-with-rejected-steps-differs',
+            out.append(('C16:history-with-rejected-steps-differs'
+                        + (':returned-unit' if case.get('strict') else ''),
                         f"{case['history']} vs {case['twin']}"))
         return out
     return run()
